@@ -34,8 +34,8 @@ def leavesOf (w : String) : List Leaf :=
 
 open Gomjml.Leaves in
 /-- `xT<c>` text · `xB<h><c>` button · `xI<h>` image · `xD` divider · `xP` spacer · `xA<rows>.<text>` table ·
-    `xS<v>[:<icon><href><text>]*` social · `xN<hb>:<link bits>` navbar · `xC[:<title><text><left>]*` accordion (title / text:
-    `n` absent, `0` empty, `1` with content) · `xK<thumbs><href bits of the images>` carousel -/
+    `xS<v>[:e<href><text> | :r<blank>]*` social · `xN<hb>[:l<content> | :r<blank>]*` navbar ·
+    `xC[:r<blank> | :E<icon left>[/T<content> | /X<content> | /r<blank>]*]*` accordion · `xK<thumbs><href bits of the images>` carousel -/
 def compOf (it : String) : Option LeafM :=
   let cs := it.toList
   let bitAt := fun (i : Nat) => cs.getD i '0' == '1'
@@ -51,16 +51,20 @@ def compOf (it : String) : Option LeafM :=
     | _ => none
   | 'S' =>
     let parts := it.splitOn ":"
-    some (.social (bitAt 2) (parts.tail.map (fun e => ⟨bit e 0, bit e 1, bit e 2⟩)))
+    some (.social (bitAt 2) (parts.tail.map (fun e =>
+      if e.startsWith "r" then SocChild.raw (bit e 1) else SocChild.el ⟨bit e 1, bit e 2⟩)))
   | 'N' =>
-    match it.splitOn ":" with
-    | [_, ls] => some (.navbar (bitAt 2) (ls.toList.map (· == '1')))
-    | [_] => some (.navbar (bitAt 2) [])
-    | _ => none
+    let parts := it.splitOn ":"
+    some (.navbar (bitAt 2) ((parts.tail.filter (· != "")).map (fun e =>
+      if e.startsWith "r" then NavChild.raw (bit e 1) else NavChild.link (bit e 1))))
   | 'C' =>
     let parts := it.splitOn ":"
-    let tri := fun (ch : Char) => if ch == 'n' then none else some (ch == '1')
-    some (.accordion (parts.tail.map (fun e => ⟨tri (e.toList.getD 0 'n'), tri (e.toList.getD 1 'n'), bit e 2⟩)))
+    some (.accordion (parts.tail.map (fun e =>
+      if e.startsWith "r" then AccChild.raw (bit e 1)
+      else
+        let ps := e.splitOn "/"
+        AccChild.el ⟨bit (ps.headD "") 1, ps.tail.map (fun q =>
+          if q.startsWith "T" then AccPart.title (bit q 1) else if q.startsWith "X" then AccPart.text (bit q 1) else AccPart.raw (bit q 1))⟩)))
   | 'K' =>
     match (cs.drop 3).map (· == '1') with
     | f :: r => some (.carousel (bitAt 2) f r)
